@@ -395,6 +395,11 @@ fn candidates_for(sc: &StructCase, visit: &mut dyn FnMut(StructCase) -> bool) ->
         }
         push(&|c| {
             c.u.packages[pi].hint = Hint::None;
+            c.u.packages[pi].hint_unlisted = false;
+            true
+        });
+        push(&|c| {
+            c.u.packages[pi].hint_unlisted = false;
             true
         });
         push(&|c| {
